@@ -67,6 +67,7 @@ type c11Stream struct {
 	prevGap     time.Duration // end of the last successful activity minus start of the one before it
 	closed      bool
 	timeoutSeen bool
+	eof         bool // a Read returned io.EOF
 	openedStep  int
 }
 
@@ -375,6 +376,7 @@ func (m *c11Machine) read(s *c11Stream, i, want int) {
 		m.note(fmt.Sprintf("read#%d=timeout", i))
 		return
 	case err == io.EOF:
+		s.eof = true
 		if s.pos != len(s.ref) {
 			m.fail("C11/stream-bytes-changed", "stream #%d ended at %d, snapshot had %d bytes", i, s.pos, len(s.ref))
 		}
@@ -539,7 +541,7 @@ func TestVerif_C11_Lockstep(t *testing.T) {
 	}
 	vsnap.Quiet()
 	rec := vstat.New(t, "C11", "lockstep",
-		"rapid: schedules of 6..16 steps over <=3 streams on a real store with read timeout 150 ms, executed in lock-step: create full/incremental, open newest/older (+ reference stream), read-some, close, double close, read-after-close, wait-past-timeout, close-near-timeout, Reap() (manual mode) or blocking auto-reaper with threshold 2 (auto mode); model = per-stream hold derived from the harness clock (sound under load). non-trivial = a reap (manual or pending auto) is attempted while a stream is open, or a timeout fires; distinct by schedule")
+		"rapid: schedules of 6..16 steps over <=3 streams on a real store with read timeout 150 ms, executed in lock-step: create full/incremental, open newest/older (+ reference stream), read-some, drain to EOF then stall without Close, close, double close, read-after-close, wait-past-timeout, close-near-timeout, Reap() (manual mode) or blocking auto-reaper with threshold 2 (auto mode); model = per-stream hold derived from the harness clock (sound under load). non-trivial = a reap (manual or pending auto) is attempted while a stream is open, or a timeout fires; distinct by schedule")
 	rapid.Check(t, func(rt *rapid.T) {
 		root, err := os.MkdirTemp("", "c11")
 		if err != nil {
@@ -576,7 +578,7 @@ func TestVerif_C11_Lockstep(t *testing.T) {
 		nsteps := rapid.IntRange(6, 16).Draw(rt, "nsteps")
 		reapWhileOpen, timeoutFired := false, false
 		for m.step = 1; m.step <= nsteps; m.step++ {
-			op := rapid.SampledFrom([]string{"create", "create", "open", "open", "open", "read", "read", "read", "slow-read", "close", "close", "double-close", "wait", "close-near-timeout", "reap", "reap", "reap"}).Draw(rt, "op")
+			op := rapid.SampledFrom([]string{"create", "create", "open", "open", "open", "read", "read", "read", "slow-read", "drain-and-stall", "drain-and-stall", "close", "close", "double-close", "wait", "close-near-timeout", "reap", "reap", "reap"}).Draw(rt, "op")
 			switch op {
 			case "create":
 				open := false
@@ -595,6 +597,26 @@ func TestVerif_C11_Lockstep(t *testing.T) {
 				if s, i := m.pickStream("stream"); s != nil {
 					want := rapid.SampledFrom([]int{1, 3, 100, 4096, 5000, 100000}).Draw(rt, "n")
 					m.read(s, i, want)
+				}
+			case "drain-and-stall":
+				// the consumer reads the stream to the end (including the Read that
+				// returns io.EOF), then stalls without closing it: it must still be
+				// force-closed so that reaping can proceed
+				if s, i := m.pickStream("stream"); s != nil && !s.released() {
+					for k := 0; k < 50 && !s.released() && !s.eof; k++ {
+						m.read(s, i, 100000)
+					}
+					if s.eof {
+						timeoutFired = true
+						m.rec.Label("drained-then-stalled")
+						m.note(fmt.Sprintf("drained#%d", i))
+						m.waitTimeout()
+						if !m.auto && m.allReleased() {
+							m.reapMustSucceed("after a drained, never closed stream was left idle")
+							m.afterManualReap()
+							m.note("reap=ok")
+						}
+					}
 				}
 			case "slow-read":
 				// keep one stream alive past the timeout by reading a byte every T/3:
